@@ -66,7 +66,11 @@ def _tensor(draw, min_order=2, max_order=4, min_side=1, max_side=4, kinds=KINDS,
     # orders drawn explicitly (list-length bias of Hypothesis would favour order 2; non-trivial = order >= 3)
     order = draw(st.sampled_from([o for o in (2, 3, 3, 3, 4, 4, 5) if min_order <= o <= max_order]))
     shape = draw(gen.shapes(order, order, min_side, max_side).filter(lambda s: gen.prod(s) <= max_size))
-    return draw(X.data(shape=shape, kinds=kinds))
+    x = draw(X.data(shape=shape, kinds=kinds))
+    sc = draw(st.sampled_from([None, None, None, None, 1e-4, 1e-8, 1e4]))   # data magnitude class (structure is scale-free)
+    if sc is not None:
+        x["xscale"] = sc
+    return x
 
 
 # ----------------------------------------------------------------------------
@@ -454,7 +458,7 @@ def _hooi_clauses(x, core, facs, modes, ranks, clause, check_ortho, check_core):
             orthonormal_cols(f, f"{clause}/orthonormal", f"factor of mode {m}")
     if check_core:
         want = ref.multi_mode_dot(x, [np.asarray(f, dtype=float).T for f in facs], list(modes))
-        close(core, want, f"{clause}/core_projection", rel=1e-8, scale=max(1.0, float(np.linalg.norm(x))))
+        close(core, want, f"{clause}/core_projection", rel=1e-8, scale=float(np.linalg.norm(x)))
 
 
 def _over_requested(x, modes, ranks):
